@@ -546,6 +546,38 @@ impl BoxClient {
                     }),
                 )
             }
+            BOp::FloatCmp { a, b, same, slice } => {
+                const VALS: [f64; 6] = [f64::NAN, 0.0, -0.0, 1.5, f64::INFINITY, -f64::NAN];
+                let (x, y) = (VALS[*a as usize % 6], VALS[*b as usize % 6]);
+                let (same, slice) = (*same, *slice);
+                fn all<T: PartialOrd + ?Sized>(p: &T, q: &T) -> String {
+                    format!("{:?} {:?}", (p == q, p != q, p < q, p <= q, p > q, p >= q, p.partial_cmp(q)), (p.eq(q), p.ne(q), p.lt(q), p.le(q), p.gt(q), p.ge(q)))
+                }
+                ok2(
+                    b_call(|| {
+                        if slice {
+                            let p: BBox<[f64]> = BBox::new_in([1.0, x, 2.0], bump).into();
+                            let q: BBox<[f64]> = BBox::new_in([1.0, y, 2.0], bump).into();
+                            Ret::Text(if same { all(&p, &p) } else { all(&p, &q) })
+                        } else {
+                            let p = BBox::new_in(x, bump);
+                            let q = BBox::new_in(y, bump);
+                            Ret::Text(if same { all(&p, &p) } else { all(&p, &q) })
+                        }
+                    }),
+                    s_call(|| {
+                        if slice {
+                            let p: Box<[f64]> = Box::new([1.0, x, 2.0]);
+                            let q: Box<[f64]> = Box::new([1.0, y, 2.0]);
+                            Ret::Text(if same { all(&p, &p) } else { all(&p, &q) })
+                        } else {
+                            let p = Box::new(x);
+                            let q = Box::new(y);
+                            Ret::Text(if same { all(&p, &p) } else { all(&p, &q) })
+                        }
+                    }),
+                )
+            }
             BOp::OverAligned { log2, seed } => {
                 let seed = *seed;
                 macro_rules! boxed {
